@@ -208,6 +208,8 @@ class World:
             obj.unfreeze()
         elif k == "set":
             setattr(obj, op[2], self.val(op[3]))
+        elif k == "setitem":
+            obj[op[2]] = self.val(op[3])
         elif k == "append":
             obj.append(self.val(op[2]))
         elif k == "del":
